@@ -208,6 +208,9 @@ def loop_contract():
                     doc="scaling-and-squaring loop (while rule, all trip counts): result = doubling recursion applied ceil(max(s,0)) times to the initialiser's output; sign fix keeps the Gramian")
 
 
+_ETA, _Q = 0.0006794818550677766, 3  # the constants of pade_and_legendre_3 (any positive values would do)
+
+
 def init_scaling_contract():
     """``_exp_gram_cholesky_init``: the initialiser is called on (A / 2^s, B / sqrt(2^s)) with the returned s >= 0, and
     its outputs are passed through unchanged (the Pade/Legendre initialiser itself is abstract here; its order
@@ -224,7 +227,7 @@ def init_scaling_contract():
                 seen.update(A=A_, B=B_)
                 return E0, U0
 
-            pl = M.PadeLegendre(q=3, eta_fp64=0.0006794818550677766, eta_fp32=0.048, init=init_stub)
+            pl = M.PadeLegendre(q=_Q, eta_fp64=_ETA, eta_fp32=0.048, init=init_stub)
             eA, S, num = target(A, B, pade_legendre=pl, solve=None)
             return eA, S, num, seen["A"], seen["B"]
 
@@ -238,6 +241,9 @@ def init_scaling_contract():
             eq("drift_scaled_by_2^-s", A_seen * p, A),
             eq("dispersion_scaled_by_2^-s/2", B_seen * jnp.sqrt(p), B),
             eq("exponential_passed_through", eA, E0), eq("factor_passed_through", S, U0),
+            # purpose of the scaling: the Pade / Legendre initialiser is only accurate for small arguments
+            ge("initialiser_called_inside_its_accuracy_radius(norm1 <= eta)", _ETA - jnp.max(jnp.sum(jnp.abs(A_seen), axis=0))),
+            ge("enough_doublings_for_the_state_dimension((n-1) <= q 2^s)", _Q * p - (A.shape[0] - 1)),
         ]
 
     def instances(tier):
